@@ -115,6 +115,8 @@ def gen_function(world, contracts, externals, key):
     if c is not None:
         for (ckey_, lab_, ast_, txt_) in c.get('calls') or []:
             seen_.setdefault((ckey_, lab_), 0)
+        for (tgt_, lab_, ast_, txt_) in c.get('stores') or []:
+            seen_.setdefault(('store:' + tgt_, lab_), 0)
     for (ck_, n_) in seen_.items():
         if n_ == 0:
             raise OutOfSubset('call clause [%s] for %s in %s applies to no call site (a variable it names does not exist where the call is made)' % (ck_[1], ck_[0], key))
